@@ -270,3 +270,40 @@ CONTRACTS['modularity_finetune_und_sign'] = Contract(
     ensures=[('C07-signed-quality-not-worse-than-canonicalised-start', (QS % ('result(0)', 'result(0)')).replace(', n)', ', n0)') + " >= " + (QS % ('ci0', 'ci0')).replace(', n)', ', n0)')),
              ('C02-labels-in-1..k', "forall(lambda y: implies(inr(y, n0), And(result(0)[y] >= 1, result(0)[y] <= n0)))"),
              ('arguments-untouched', "And(unchanged('W'), unchanged('ci'))")])
+
+
+# ---- one level of modularity_louvain_und_sign (fragment) ---------------------------------------------------------------------------
+def _setup_level_sign(eng, st):
+    nh = z3.Int('nh')
+    st.pc.append(nh >= 1)
+    st.env['nh'] = nh
+    st.ghost['n0'] = nh
+    st.env['W0'] = alloc(st, 2, z3.Const('W0level', A2R), (nh, nh), REAL)
+    st.env['W1'] = alloc(st, 2, z3.Const('W1level', A2R), (nh, nh), REAL)
+    for nm in ('s0', 's1', 'd0', 'd1', 'gamma'):
+        st.env[nm] = z3.Real(nm)
+    st.env['rng'] = Opaque('rng')
+    st.env['h'] = z3.Int('h')
+
+
+QSL = "umul(d0, Qrawg(W0, %s, gamma, s0, nh)) - umul(d1, Qrawg(W1, %s, gamma, s1, nh))"
+LSIGN_INV = [
+    ('K1-node-to-module-sums', "forall(lambda x, mm: implies(And(inr(x, nh), inr(mm, nh)), And(knm0[x, mm] == modsum(W0, m, x, mm, nh), knm1[x, mm] == modsum(W1, m, x, mm, nh))))"),
+    ('K2-node-degrees', "forall(lambda x: implies(inr(x, nh), And(kn0[x] == rsum(W0, x, nh), kn1[x] == rsum(W1, x, nh))))"),
+    ('K3-module-degrees', "forall(lambda mm: implies(inr(mm, nh), And(km0[mm] == degsum(W0, m, mm, nh), km1[mm] == degsum(W1, m, mm, nh))))"),
+    ('LAB-labels-in-range', "forall(lambda y: implies(inr(y, nh), And(m[y] >= 1, m[y] <= nh)))"),
+    ('QMONO-signed-quality-never-below-level-start', (QSL % ('m', 'm')) + " >= " + (QSL % ('m0', 'm0'))),
+    ('FRAME', "nh == n0"),
+]
+CONTRACTS['modularity_louvain_und_sign#level'] = Contract(
+    MOD, 'modularity_louvain_und_sign', ['W', 'gamma', 'qtype', 'seed'], setup=_setup_level_sign, key='modularity_louvain_und_sign#level', nonlinear='uf',
+    fragment=('kn0 = np.sum(W0, axis=0)', 'while flag'),
+    requires=[('level-matrices-symmetric', "forall(lambda x, y: implies(And(inr(x, n0), inr(y, n0)), And(W0[x, y] == W0[y, x], W1[x, y] == W1[y, x])))")],
+    loops={'while flag': {'name': 'sweeps', 'inv': LSIGN_INV}, 'for u in rng.permutation(nh)': {'name': 'moves', 'inv': LSIGN_INV}},
+    ghost_after={'m = np.arange(nh) + 1': "m0 = snapshot(m); assume(lemma_modularity(W0, m, nh), lemma_modularity(W1, m, nh))",
+                 'ma = m[u] - 1': "assume(lemma_modularity(W0, m, nh), lemma_modularity(W1, m, nh))",
+                 'mb = np.argmax(dQ)': "check('argmax-attains-max', dQ[mb] == max_dQ); check('move-changes-module', mb != ma)",
+                 'm[u] = mb + 1': "assume(lemma_umul_linear(d0, Qrawg(W0, m, gamma, s0, nh), Qrawg(W0, m_pre, gamma, s0, nh)), lemma_umul_linear(d1, Qrawg(W1, m, gamma, s1, nh), Qrawg(W1, m_pre, gamma, s1, nh)), "
+                                  "lemma_umul_linear(d0, dQ0[mb], 0), lemma_umul_linear(d1, dQ1[mb], 0))"},
+    ghost_before={'m[u] = mb + 1': "m_pre = snapshot(m)"},
+    ensures=[('level-never-lowers-the-signed-quality', (QSL % ('m', 'm')) + " >= " + (QSL % ('m0', 'm0')))])
